@@ -68,13 +68,13 @@ PROPS = {
                 pending=[]),
     'C07': dict(obligations=lambda: P('SqProps.C07') + TIE_FN + TIE_CONST,
                 slices=['prog', 'ops'], monitors=[],
-                pending=['frame_lemma (compositionality of the machine)']),
+                pending=['a denotational (big-step) reference semantics defined independently of the machine and proved equal to it (the frame lemma evaluation_is_compositional and the big-step theorems of C07 / C09 are the compositional half)']),
     'C08': dict(obligations=lambda: P('SqProps.C08') + T('SqTie.LexRules', 'lexrules_tie'),
                 slices=['num'], monitors=['c08'],
                 pending=['`fix` assembled with div_correct into one equation for the normal exponent range (the two halves — sticky rounding at any position, at least one digit rounded — are proved)']),
     'C09': dict(obligations=lambda: P('SqProps.C09') + SHAPE_OPS,
                 slices=['probe'], monitors=['c09'],
-                pending=['big-step statements for slices, subscripts, unary nodes and statement lists (proved with the frame lemma for strict binary operators, and / or, if-else, call arguments and dict literals of any size: strict_bin_big_step, args_big_step, dict_big_step, …)']),
+                pending=['big-step statements for the three-part slice node and for callbacks driven by map / filter / reduce / sorted (proved with the frame lemma for every single-operand frame, strict binary operators, and / or, if-else, call arguments, dict literals and statement lists of any size)']),
     'C10': dict(obligations=lambda: P('SqProps.C10'),
                 slices=['scope', 'session_scope'], monitors=['c10'],
                 pending=['lambda-scope writes never reach an outer binding of the same name: heap-level frame lemma for writeTop over whole runs (one-transition lemma writes_go_to_top proved; scope_balanced proved over all runs)']),
